@@ -321,7 +321,10 @@ impl<'a> Interpreter<'a> {
                             return Err(CelError::value("Only strings can be used as Object keys"));
                         };
 
-                        map.insert(key, stack.pop_val()?);
+                        // entries come off the stack last to first and the
+                        // last entry of the literal wins for a repeated key
+                        let value = stack.pop_val()?;
+                        map.entry(key).or_insert(value);
                     }
 
                     stack.push_val(map.into());
